@@ -48,10 +48,10 @@ def tasks(seed, tier, n):
             ts.append({'case': i, 'mode': 'shadow', 'hclass': (i + 1 + (i // 4) % 3) % 4})
     # stub calibration against the real pathos pool (informational, DESIGN 3.2): 1 input on every quick run,
     # 4 on a thorough run
-    # schedule independence under one and the same fault sequence: a sixth of the cases is additionally run with a
+    # schedule independence under one and the same fault sequence: a third of the cases is additionally run with a
     # virtual-alarm plan (engine cv-timeout's generator) under --threads 1 and --threads k
     for i in range(n):
-        if i % 6 == 3:
+        if i % 3 == 0:
             ts.append({'case': i, 'mode': 'tthreads', 'hclass': i % 4})
     calib = [{'case': j * 5 + 2, 'mode': 'calib', 'hclass': j % 4} for j in range(1 if tier == 'quick' else 4)]
     return calib + ts
@@ -240,7 +240,7 @@ def run_tthreads(seed, task, tier):
         if m.step_capped or not m.ok or not m.attempt_lines:
             out['invalid'] = True
             return out
-        for pl in range(2):
+        for pl in range(3):
             prng = R.case_rng(seed, ENGINE, idx, f'tplan{pl}')
             plan = cv_timeout.plan_alarms(prng, m, len(case['config']['max_variants_per_node']))
             d, info = timeout_threads(case, wd, plan, threads, sched)
